@@ -7,7 +7,7 @@ From TL Require Import Gen.IgnoreGen Model.Ignore Model.IgnoreSpec.
 From TL Require Import Model.DryBase Model.DryPipe Gen.DryGen Model.Dry.
 From TL Require Import Model.SrpTypes Gen.SrpGen Model.SrpSpec Model.Srp.
 From TL Require Import Gen.EditGen Model.EditRun Actual.EditActual.
-From TL Require Proofs.EditList Proofs.EditIgnore Proofs.EditLines Proofs.EditDry Proofs.EditSrp Proofs.EditFacts Proofs.EditMain.
+From TL Require Import Proofs.EditList Proofs.EditIgnore Proofs.EditLines Proofs.EditDry Proofs.EditSrp Proofs.EditFacts Proofs.EditMain.
 
 (* ------------------------------------------------------------------ 1. suppression decisions (Model/Ignore.v) *)
 (* For EVERY quirk vector of the shared suppression parser, every file, every violation line and rule: inserting a
@@ -128,6 +128,14 @@ Theorem C13_dry_rows_ws_variant : forall q l W fi docs ls ls', q_strip_in_code q
 Proof. exact EditDry.dry_rows_ws_variant. Qed.
 Print Assumptions C13_dry_rows_ws_variant.
 
+(* ... and therefore the same DRY report for the whole project, under every quirk vector that strips comments textually *)
+Theorem C13_dry_report_ws_variant : forall q W k files files', q_strip_in_code q = true ->
+  Forall2 (fun f f' => exists l docs ls ls', f = EditDry.raw_file l docs ls /\ f' = EditDry.raw_file l docs ls' /\
+                       Forall2 EditDry.ws_variant ls ls' /\ List.length docs = List.length ls) files files' ->
+  dry_model q W k files = dry_model q W k files'.
+Proof. exact EditDry.dry_report_ws_variant. Qed.
+Print Assumptions C13_dry_report_ws_variant.
+
 (* the reported line count end - start + 1 is unchanged by insertions outside the block *)
 Theorem C13_dry_span_outside : forall s e k, (k < s \/ e <= k) ->
   dry_line_count (shift_ins k s) (shift_ins k e) = dry_line_count s e.
@@ -217,9 +225,10 @@ Theorem C13_sequences : forall (R : Type) (F : list string -> nat -> R) (good : 
 Proof. exact (@EditList.invariant_seq). Qed.
 Print Assumptions C13_sequences.
 
+(* the line separators of every text-level step are "\n" (the codec and the suppression parser's splitting method, which
+   carry two of the listed defects, are stated in Props/C13Known.v) *)
 Theorem C13_source_literals :
-  file_lines_sep = nl /\ file_read_encoding = "utf-8" /\
-  ignore_line_splitters = ["splitlines"; "splitlines"; "splitlines"] /\
+  file_lines_sep = nl /\
   loc_line_seps = [nl; nl] /\ tokenize_line_seps = [nl; nl; nl] /\ block_filter_line_seps = [nl; nl; nl; nl] /\
   loc_strip_calls = ["count_loc"; "_node_loc"] /\ dry_block_window = 10.
 Proof. exact EditFacts.gen_edit_facts. Qed.
